@@ -142,4 +142,63 @@ Section Fields.
         destruct (br_range_ok (mkbr (rev (name_inner n) ++ p) t) (Z.of_nat (length p)) ce') as [o Ho].
         rewrite Ho. eexists; split; [reflexivity|split; reflexivity].
   Qed.
+
+  (* ---- repeated kinds ---- *)
+  Definition seq_sub_ok (k : fkind) : bool :=
+    match k with
+    | KNat false | KStr false | KName | KBin | KStruct _ | KFixed _ false | KTime false => true
+    | _ => false
+    end.
+
+  Lemma seq_sub_facts k x : seq_sub_ok k = true -> is_none x = false ->
+    valk k = true /\ single k = true /\ present k x = true.
+  Proof.
+    intros Hk Hx. destruct k; try discriminate Hk; try (destruct opt; try discriminate Hk);
+      destruct x; try discriminate Hx; repeat split; reflexivity.
+  Qed.
+
+  Lemma b_rd_field_seq f0 ic i k x old sp s p t :
+    (S f0 <= Fmax)%nat -> seq_sub_ok k = true -> is_none x = false -> wf_val (S f0) sc k x = true ->
+    small (payload f0 sc k x) -> nth i (p_vals s) VNone = VSeq old ->
+    exists s', b_rd_field (bparse D sc) ic i (KSeq k) (N.of_nat (length (payload f0 sc k x))) sp s (mkbr p (payload f0 sc k x ++ t))
+               = ROk s' (mkbr (rev (payload f0 sc k x) ++ p) t)
+               /\ p_vals s' = upd i (VSeq (old ++ [x])) (p_vals s) /\ p_hand s' = upd i true (p_hand s).
+  Proof.
+    intros Hf Hk Hx Hw Hs Hold. destruct (seq_sub_facts k x Hk Hx) as [Hv [_ Hp]].
+    unfold rd_field. rewrite (b_rd_val_payload f0 ic k x p t Hf Hv Hw Hp Hs).
+    unfold get_val. cbn [set_hand p_vals]. rewrite Hold.
+    eexists; split; [reflexivity|split; reflexivity].
+  Qed.
+
+  Definition map_key_ok (k : fkind) : bool := match k with KNat false | KStr false => true | _ => false end.
+  Definition map_val_ok (k : fkind) : bool :=
+    match k with KBin | KStruct _ | KNat false | KStr false | KName => true | _ => false end.
+
+  Lemma map_key_seq k : map_key_ok k = true -> seq_sub_ok k = true.
+  Proof. destruct k; try discriminate; destruct opt; try discriminate; reflexivity. Qed.
+  Lemma map_val_seq k : map_val_ok k = true -> seq_sub_ok k = true.
+  Proof. destruct k; try discriminate; try (destruct opt; try discriminate); reflexivity. Qed.
+
+  Lemma b_rd_field_map f0 ic i key vt val kx vx old sp s p t :
+    (S f0 <= Fmax)%nat -> map_key_ok key = true -> map_val_ok val = true -> vt < two64 ->
+    is_none kx = false -> is_none vx = false -> wf_val (S f0) sc key kx = true -> wf_val (S f0) sc val vx = true ->
+    small (payload f0 sc key kx) -> small (payload f0 sc val vx) -> nth i (p_vals s) VNone = VMap old ->
+    exists s', b_rd_field (bparse D sc) ic i (KMap key vt val) (N.of_nat (length (payload f0 sc key kx))) sp s
+                 (mkbr p (payload f0 sc key kx ++ tlv vt (payload f0 sc val vx) ++ t))
+               = ROk s' (mkbr (rev (payload f0 sc key kx ++ tlv vt (payload f0 sc val vx)) ++ p) t)
+               /\ p_vals s' = upd i (VMap (map_put kx vx old)) (p_vals s) /\ p_hand s' = upd i true (p_hand s).
+  Proof.
+    intros Hf Hk Hv Hvt Hkx Hvx Hwk Hwv Hsk Hsv Hold.
+    destruct (seq_sub_facts key kx (map_key_seq _ Hk) Hkx) as [Hk1 [_ Hk2]].
+    destruct (seq_sub_facts val vx (map_val_seq _ Hv) Hvx) as [Hv1 [_ Hv2]].
+    unfold rd_field. rewrite (b_rd_val_payload f0 ic key kx p _ Hf Hk1 Hwk Hk2 Hsk).
+    destruct (b_rd_header vt (payload f0 sc val vx) (rev (payload f0 sc key kx) ++ p) t Hvt Hsv) as [H1 H2].
+    rewrite H1. cbn [negb]. rewrite H2. cbn [negb].
+    rewrite N.eqb_refl. cbn [negb].
+    rewrite (b_rd_val_payload f0 ic val vx _ t Hf Hv1 Hwv Hv2 Hsv).
+    unfold get_val. cbn [set_hand p_vals]. rewrite Hold.
+    eexists. split.
+    { f_equal. f_equal. unfold tlv. rewrite !rev_app_distr, <- !app_assoc. reflexivity. }
+    split; reflexivity.
+  Qed.
 End Fields.
